@@ -518,7 +518,7 @@ class Silf(object):
             data += sstruct.pack(Silf_justify_format, j)
         data += sstruct.pack(Silf_part2_format, self)
         if self.numCritFeatures:
-            data += struct.pack((">%dH" % self.numCritFeaturs), *self.critFeatures)
+            data += struct.pack((">%dH" % self.numCritFeatures), *self.critFeatures)
         data += struct.pack("BB", 0, len(self.scriptTags))
         if len(self.scriptTags):
             tdata = [struct.pack("4s", x.encode("ascii")) for x in self.scriptTags]
